@@ -367,7 +367,12 @@ fn replay(args: &Args, path: &str) {
 }
 
 pub fn run(args: &Args) {
-    if let Some(p) = &args.replay { replay(args, p); return; }
+    if let Some(p) = &args.replay {
+        let k = replay_kind(p);
+        if k == "migration_probe" { let mut o = Out::new(&args.out); replay_probe(&mut o, &mut |o| migration_probe(o)); }
+        if k == "distributor_distribution_asset_change" { let mut o = Out::new(&args.out); replay_probe(&mut o, &mut |o| distribution_asset_change_probe(o)); }
+        replay(args, p); return;
+    }
     let mut out = Out::new(&args.out);
     out.rule = "a history = bonds/unbonds of 3 bonders interleaved with NewEpoch (fees forwarded by the real collector, incl. zero and a collector fault), Claim and \
                 grace-period changes (increase, decrease, out of range, non-owner) until >= grace+2 epochs exist; non-trivial = >= grace+2 epochs created, \
